@@ -210,6 +210,31 @@ pub fn run(ctx: &mut Ctx) {
             idx[k] = 0;
         }
     }
+    // hand-written sequences for shapes random operations rarely assemble
+    {
+        let add = |p: &[&str], n: &str, a: &[&str]| Op::Add(sv(p), n.to_string(), sv(a));
+        let fixed: Vec<(&str, Vec<Op>)> = vec![
+            // a separator inside a name against the same string split over two levels
+            ("r", vec![add(&[], "a.b", &["x"]), add(&["a.b"], "c", &["only_in_c"]), add(&[], "a", &[]), add(&["a"], "b.c", &["y"])]),
+            ("r", vec![add(&[], "a", &[]), add(&["a"], "b.c", &["y"]), add(&[], "a.b", &["x"]), add(&["a.b"], "c", &["only_in_c"]), Op::Opt(sv(&[]), "a".into())]),
+            ("a", vec![add(&[], "b", &[]), add(&["b"], "c.d", &["k"]), add(&[], "b.c", &[]), add(&["b.c"], "d", &["k2"]), Op::Text(sv(&["b.c", "d"]), true)]),
+            // optional, then re-added from a clone and from a move (repair F3)
+            ("r", vec![add(&[], "a", &["x"]), Op::Opt(sv(&[]), "a".into()), add(&[], "a", &["y"]), Op::AddCopy(sv(&["a"]), sv(&[])), Op::Move(sv(&[]), "a".into(), sv(&[]))]),
+            // remove then add: positions collide
+            ("r", vec![add(&[], "alpha", &[]), add(&[], "beta", &["b"]), Op::Remove(sv(&[]), "alpha".into()), add(&[], "gamma", &["g"]), add(&["beta"], "x", &[]), add(&["gamma"], "x", &[])]),
+            // numbered names
+            ("r", vec![add(&[], "option", &["k"]), add(&[], "option1", &["k"]), add(&[], "Option", &["k"]), add(&[], "vec", &["k"]), add(&[], "Vec1", &["k"])]),
+        ];
+        for (root, ops) in fixed {
+            seqs.push((root.to_string(), sv(&["x", "y", "x"]), ops.clone(), "fixed"));
+            // and every prefix-extension with one more operation from the small alphabet
+            for extra in alpha.iter().take(8) {
+                let mut o2 = ops.clone();
+                o2.push(extra.clone());
+                seqs.push((root.to_string(), sv(&["x"]), o2, "fixed"));
+            }
+        }
+    }
     let pools = crate::docprops::name_pools();
     let n_rand = if ctx.thorough { 40000 } else { 2500 };
     for i in 0..n_rand {
